@@ -22,6 +22,7 @@ import (
 	"github.com/mandykoh/prism/displayp3"
 	"github.com/mandykoh/prism/meta"
 	"github.com/mandykoh/prism/meta/autometa"
+	"github.com/mandykoh/prism/meta/jpegmeta"
 	"github.com/mandykoh/prism/prophotorgb"
 	"github.com/mandykoh/prism/srgb"
 )
@@ -165,8 +166,33 @@ func main() {
 			}
 		}
 	}
+	// a JPEG whose profile spans three APP2 segments, different for every goroutine; its result is kept and read
+	// again after the goroutine's other loads (what a loader returned stays what it was)
+	multiChunk := func(g int) ([]byte, []byte) {
+		prof := make([]byte, 3*21000)
+		for i := range prof {
+			prof[i] = byte(i*7 + g*31 + i/251)
+		}
+		b := []byte{0xff, 0xd8}
+		for k := 0; k < 3; k++ {
+			part := prof[k*21000 : (k+1)*21000]
+			l := 2 + 12 + 2 + len(part)
+			b = append(b, 0xff, 0xe2, byte(l>>8), byte(l))
+			b = append(b, "ICC_PROFILE\x00"...)
+			b = append(b, byte(k+1), 3)
+			b = append(b, part...)
+		}
+		b = append(b, 0xff, 0xc0, 0, 17, 8, 0, 16, 0, 24, 3, 1, 0x11, 0, 2, 0x11, 1, 3, 0x11, 1)
+		b = append(b, 0xff, 0xda, 0, 12, 3, 1, 0, 2, 0x11, 3, 0x11, 0, 63, 0, 1, 2, 3, 0xff, 0xd9)
+		return b, prof
+	}
 	loaderJob := func(g int) []res {
 		var out []res
+		jb, _ := multiChunk(g)
+		heldMD, _, heldErr := jpegmeta.Load(bytes.NewReader(jb))
+		defer func() {
+			_ = heldErr
+		}()
 		for i, md := range sharedMD {
 			v := uint64(0)
 			if d, err := md.ICCProfileData(); err == nil {
@@ -192,6 +218,16 @@ func main() {
 		}
 		ad := ciexyz.AdaptBetweenXYYWhitePoints(ciexyy.D65, ciexyy.D50).Apply(ciexyz.Color{X: 0.3, Y: 0.4, Z: 0.5})
 		out = append(out, res{"adapt", uint64(ad.X*1e6)<<32 | uint64(ad.Z*1e6)})
+		// a second multi-segment load, then the first one's profile bytes are looked at again
+		jb2, _ := multiChunk(g + 100)
+		jpegmeta.Load(bytes.NewReader(jb2))
+		hv := uint64(0)
+		if heldErr == nil && heldMD != nil {
+			if d, err := heldMD.ICCProfileData(); err == nil {
+				hv = imgSig(d)
+			}
+		}
+		out = append(out, res{"multi-segment profile kept across later loads", hv})
 		return out
 	}
 	// colour mathematics without lazily built tables: adaptations between DIFFERENT white-point pairs per
